@@ -145,6 +145,41 @@ func c12After(s *metrics.Store, ms []*c12Metric, id string) {
 
 var c12Faults int
 
+// Concurrent line processing: at one solver-chosen point of an export (a
+// constructor call or a write) a line-processing goroutine asks for a datum
+// of the metric, i.e. queues on its write lock, and the export goes on with
+// that writer waiting.
+var (
+	c12WriterMetric  *metrics.Metric
+	c12WriterStarted bool
+)
+
+func c12WriterArm(ms []*c12Metric) {
+	c12WriterMetric, c12WriterStarted = nil, false
+	if vParam("writer", 0) == 1 && len(ms) > 0 {
+		c12WriterMetric = ms[0].m
+	}
+}
+
+func c12WriterPoint() {
+	m := c12WriterMetric
+	if m == nil || c12WriterStarted {
+		return
+	}
+	if !vFault("line-processing-queues-on-the-metric") {
+		return
+	}
+	c12WriterStarted = true
+	go func() {
+		if len(m.Keys) == 0 {
+			m.GetDatum()
+		} else {
+			m.GetDatum("queued")
+		}
+	}()
+	c12AwaitQueued(m)
+}
+
 // HarnessC12Prom: Collect with the client-library constructors failing at
 // solver-chosen calls (C12), and the emitted samples compared with the store
 // (C13).
@@ -153,7 +188,9 @@ func HarnessC12Prom() {
 	s, ms := c12Store(nm, vParam("symlabels", 1) == 1, true)
 	e := &Exporter{store: s, omitProgLabel: nondetBool("omitProg"), emitTimestamp: nondetBool("emitTS")}
 	c := make(chan prometheus.Metric, 16)
+	c12WriterArm(ms)
 	e.Collect(c)
+	c12WriterMetric = nil
 	var got []prometheus.Metric
 	for len(c) > 0 {
 		got = append(got, <-c)
@@ -277,6 +314,7 @@ func (w *faultWriter) Write(p []byte) (int, error) {
 }
 func (w *faultWriter) WriteString(s string) (int, error) {
 	w.n++
+	c12WriterPoint()
 	if w.cancel != nil && vFault("cancel") {
 		w.cancel()
 	}
@@ -293,8 +331,10 @@ func HarnessC12Socket() {
 	e := &Exporter{store: s, hostname: "host", pushInterval: 60 * time.Second}
 	w := &faultWriter{}
 	f := []formatter{metricToGraphite, metricToStatsd, metricToCollectd}[nondetRange("format", 0, 2)]
+	c12WriterArm(ms)
 	err := e.writeSocketMetrics(w, f, graphiteExportTotal, graphiteExportSuccess)
 	_ = err
+	c12WriterMetric = nil
 	c12After(s, ms, "C12.socket")
 }
 
@@ -309,11 +349,13 @@ func HarnessC12HTTP() {
 	}
 	w := &faultWriter{cancel: cancel, hdr: http.Header{}}
 	r := (&http.Request{}).WithContext(ctx)
+	c12WriterArm(ms)
 	if nondetRange("handler", 0, 1) == 0 {
 		e.HandleVarz(w, r)
 	} else {
 		e.HandleGraphite(w, r)
 	}
+	c12WriterMetric = nil
 	c12After(s, ms, "C12.http")
 	cancel()
 }
